@@ -451,6 +451,59 @@ Theorem frame_directories_multi_whole xall fuel ww wu c st k answers res st' s0 
 Proof. exact (remove_x_survivor_dir_whole xall fuel ww wu c st k answers res st' s0 m u f0 rs). Qed.
 Print Assumptions frame_directories_multi_whole.
 
+(* the SAME name, version and flavor declared in another stack of the path with the same installation (eups declare
+   -r dir in a team stack and in a personal stack): the command removes the declaration of the first stack that has
+   the version ([home]); the declaration of stack s0 stays, and when it is installed in the very directory of the
+   removed one, or inside it, its whole directory is as before.  The model tells declarations apart by stack:
+   [in_use] looks every (stack, name, version, flavor) up in the database as it is after the undeclare, so the twin of
+   the product that has just gone still counts (Product equality of the code sees name, version and flavor only). *)
+Theorem same_product_other_stack_keeps_directory xall fuel ww wu c st k answers res st' s0 rs hd :
+  wf_world ww -> default_undeclared ww c -> declared ww (k_name k) (k_version k) = true ->
+  remove_x xall true fuel ww wu c st k answers = (res, st') ->
+  k_recursive k = false ->
+  a_decl (rdb st) s0 (k_name k) (k_version k) (rc_flavor c) = Some rs -> In s0 (apath (rdb st)) ->
+  home c (rdb st) (k_name k) (k_version k) <> Some s0 ->
+  placeholder (fst rs) = false ->
+  product_dir c (rdb st) (k_name k, Some (k_version k), true) = Some hd -> under hd (fst rs) = true ->
+  a_decl (rdb st') s0 (k_name k) (k_version k) (rc_flavor c) = Some rs /\
+  forall x, under (fst rs) x = true -> (In x (rfs st') <-> In x (rfs st)).
+Proof.
+  intros Hwf Hdu Hd Hrun Hrec Hs0 Hin Hhome Hph Hhd Hu.
+  assert (ND : ~ doomed ww c (rdb st) (k_name k) (k_version k) (k_recursive k) s0 (k_name k) (k_version k) (rc_flavor c)).
+  { intros [_ [_ Hh]]. exact (Hhome Hh). }
+  split.
+  - rewrite <- Hs0. exact (proj1 (remove_x_frame xall true fuel ww wu c st k answers res st' Hwf Hdu Hd Hrun) _ _ _ _ ND).
+  - apply (remove_x_survivor_dir_whole xall fuel ww wu c st k answers res st' s0 (k_name k) (k_version k) (rc_flavor c) rs
+             Hwf Hdu Hd Hrun Hs0 Hin (or_introl eq_refl) Hph ND).
+    intros q dir [->|[R _]] PD _ _; [|rewrite Hrec in R; discriminate R].
+    rewrite Hhd in PD. injection PD as <-. exact Hu.
+Qed.
+Print Assumptions same_product_other_stack_keeps_directory.
+
+(* recursive or not: the twin in stack s0 of ANY asked product (the one named, or a dependency that goes with -R)
+   keeps its whole directory, provided no asked product is installed strictly inside it (that one was asked to go) *)
+Theorem same_product_other_stack_keeps_directory_recursive xall fuel ww wu c st k answers res st' s0 n' v' rs :
+  wf_world ww -> default_undeclared ww c -> declared ww (k_name k) (k_version k) = true ->
+  remove_x xall true fuel ww wu c st k answers = (res, st') ->
+  asked ww (k_name k) (k_version k) (k_recursive k) (n', Some v', true) ->
+  a_decl (rdb st) s0 n' v' (rc_flavor c) = Some rs -> In s0 (apath (rdb st)) ->
+  home c (rdb st) n' v' <> Some s0 ->
+  placeholder (fst rs) = false ->
+  (forall q dir, asked ww (k_name k) (k_version k) (k_recursive k) q -> product_dir c (rdb st) q = Some dir ->
+                 placeholder dir = false -> under (fst rs) dir = true -> under dir (fst rs) = true) ->
+  a_decl (rdb st') s0 n' v' (rc_flavor c) = Some rs /\
+  forall x, under (fst rs) x = true -> (In x (rfs st') <-> In x (rfs st)).
+Proof.
+  intros Hwf Hdu Hd Hrun _ Hs0 Hin Hhome Hph Hins.
+  assert (ND : ~ doomed ww c (rdb st) (k_name k) (k_version k) (k_recursive k) s0 n' v' (rc_flavor c)).
+  { intros [_ [_ Hh]]. exact (Hhome Hh). }
+  split.
+  - rewrite <- Hs0. exact (proj1 (remove_x_frame xall true fuel ww wu c st k answers res st' Hwf Hdu Hd Hrun) _ _ _ _ ND).
+  - exact (remove_x_survivor_dir_whole xall fuel ww wu c st k answers res st' s0 n' v' (rc_flavor c) rs
+             Hwf Hdu Hd Hrun Hs0 Hin (or_introl eq_refl) Hph ND Hins).
+Qed.
+Print Assumptions same_product_other_stack_keeps_directory_recursive.
+
 (* the statement under pairwise non-nested directories holds for the tree before that fix too *)
 Theorem frame_directories_multi_nonnested xall keep fuel ww wu c st k answers res st' s0 m u f0 rs :
   wf_world ww -> default_undeclared ww c -> declared ww (k_name k) (k_version k) = true -> wf_dirs (rdb st) ->
@@ -624,4 +677,32 @@ Example shared_directory_goes_with_the_last :
                     (call "y" "1" false true false) [] in
    (r, adecls (rdb s), rfs s))
   = (Ok tt, [], [lit "/S2/_tables/y.table"]).
+Proof. vm_compute. reflexivity. Qed.
+
+(* t 1 is declared in S1 and in S2 with the one installation /out/t (seed C14-13): remove t 1 takes the declaration of
+   S1 away and leaves the directory to the declaration of S2; the same command once more removes that one and the
+   directory with it.  Nested: the declaration of S2 lives in /out/t/sub - the whole of /out/t is left alone. *)
+Definition tw (s : str) (dir : string) : dkey * vrec := ((s, lit "t", lit "1", linux), (lit dir, s ++ lit "/_tables/t.table")).
+Definition fs_twin : list str :=
+  [lit "/out/t"; lit "/out/t/README"; lit "/out/t/sub"; lit "/out/t/sub/README"; lit "/S1/_tables/t.table"; lit "/S2/_tables/t.table"].
+Definition st_twin (d2 : string) : rstate := mkR (mkAdb [S1; S2] [tw S1 "/out/t"; tw S2 d2] []) fs_twin.
+Definition w_twin : world := [ pr "t" "1" [] ].
+
+Example same_product_other_stack_example :
+  (let '(r, s) := remove_x true true 4 w_twin w_twin (conf false) (st_twin "/out/t") (call "t" "1" false true false) [] in
+   (r, adecls (rdb s), rfs s)) = (Ok tt, [tw S2 "/out/t"], fs_twin)
+  /\ (let '(r, s) := remove_x true true 4 w_twin w_twin (conf false)
+                       (snd (remove_x true true 4 w_twin w_twin (conf false) (st_twin "/out/t") (call "t" "1" false true false) []))
+                       (call "t" "1" false true false) [] in
+      (r, adecls (rdb s), rfs s)) = (Ok tt, [], [lit "/S1/_tables/t.table"; lit "/S2/_tables/t.table"])
+  /\ (let '(r, s) := remove_x true true 4 w_twin w_twin (conf false) (st_twin "/out/t/sub") (call "t" "1" true false false) [] in
+      (r, adecls (rdb s), rfs s)) = (Ok tt, [tw S2 "/out/t/sub"], fs_twin)
+  /\ home (conf false) (rdb (st_twin "/out/t")) (lit "t") (lit "1") = Some S1
+  /\ product_dir (conf false) (rdb (st_twin "/out/t")) (nd "t" "1") = Some (lit "/out/t").
+Proof. repeat split; vm_compute; reflexivity. Qed.
+
+(* the tree before the fix C14-remove-keeps-shared-directory deletes the installation of the twin *)
+Example same_product_other_stack_refuted_pinned :
+  (let '(r, s) := remove_x true false 4 w_twin w_twin (conf false) (st_twin "/out/t") (call "t" "1" false true false) [] in
+   (r, adecls (rdb s), rfs s)) = (Ok tt, [tw S2 "/out/t"], [lit "/S1/_tables/t.table"; lit "/S2/_tables/t.table"]).
 Proof. vm_compute. reflexivity. Qed.
